@@ -67,12 +67,19 @@ def run(idx: Index, rep: Report, tier: str) -> None:
     rep.check(ok, rule1, "Dnf.walk_or concatenates the conjunction lists of all disjuncts", wo.loc(), construct=norm(r[0].value) if r else "", function=wo.qualname)
     wp = [c for c in walk_no_nested(wa.node) if isinstance(c, ast.Call) and call_name(c) == "product"]
     ok = bool(wp) and all(len(c.args) == 1 and isinstance(c.args[0], ast.Starred) and norm(c.args[0].value) == "args" for c in wp)
-    rep.check(ok, rule1, "Dnf.walk_and distributes over the full product of the arguments' disjuncts", wa.loc(wp[0]) if wp else wa.loc(), construct=norm(wp[0]) if wp else "", function=wa.qualname)
+    if wp:
+        rep.check(ok, rule1, "Dnf.walk_and distributes over the full product of the arguments' disjuncts", wa.loc(wp[0]), construct=norm(wp[0]), function=wa.qualname)
+    else:
+        # the distribution is written without itertools.product (explicit enumeration): this rule reads only the
+        # product form; what every enumerated conjunction must satisfy is decided by C12.4 on the loop that appends
+        rep.inconclusive(rule1, "Dnf.walk_and distributes over the full product of the arguments' disjuncts", wa.loc(), construct="no product(*args): enumeration written another way", detail="not decided: the rule reads the itertools.product form only", function=wa.qualname)
 
     # ---------------------------------------------------------------- (2) NNF polarity table
     rule2 = "C12.2 NNF-polarity-table"
     nn = idx.func("model.walkers.dnf.Nnf.get_nnf_expression")
     rep.note_function(nn.qualname)
+    if _nnf_by_cases(nn, rep, rule2, tier):
+        return _after_nnf(idx, rep, tier)
     # roles: `p, e, status = stack.pop()`; `solved` is the list the atom branch appends to; `arg` iterates e.args
     from ..roles import unpack_targets, with_roles
 
@@ -202,9 +209,122 @@ def run(idx: Index, rep: Report, tier: str) -> None:
         ok = t == ["e"] and len(e) == 1 and e[0].endswith("Not(e)")
     rep.check(ok, rule2, "an atom is negated exactly under negative polarity", nn.loc(inner[0]) if inner else nn.loc(), construct="p ? e : Not(e)", detail="" if ok else "atoms are negated under the wrong polarity", function=nn.qualname)
 
+    _after_nnf(idx, rep, tier)
+
+
+def _nnf_by_cases(nn, rep: Report, rule2: str, tier: str) -> bool:
+    """Nnf.get_nnf_expression looks at a formula only through is_not / is_and / is_or / is_implies / is_iff, args and
+    arg(i), and builds its answer only with manager.And / Or / Not: what it computes for a formula is decided by
+    interpreting its syntax tree on abstract formula trees (no repository code runs). It is interpreted on every
+    formula of depth <= 2 over {not, and, or, implies, iff} and two atoms (a few three-argument conjunctions
+    included) and the answer is compared with the definition: same truth table, negations only on atoms, no
+    implication or equivalence left. Returns False (shape rules take over) when the code leaves the fragment."""
+    import itertools
+
+    from .extra3 import _OrderInterp, _Raised, _Returned, _Stub, _Yielded
+
+    class F:
+        __slots__ = ("kind", "args", "stub")
+
+        def __init__(self, kind, args=()):
+            self.kind, self.args = kind, list(args)
+            k = kind
+            self.stub = _Stub(
+                f"<{k}>",
+                is_not=lambda: k == "not",
+                is_and=lambda: k == "and",
+                is_or=lambda: k == "or",
+                is_implies=lambda: k == "implies",
+                is_iff=lambda: k == "iff",
+                args=[a.stub for a in self.args],
+                arg=lambda i: self.args[i].stub,
+            )
+            self.stub._formula = self
+
+    def mk(kind):
+        def build(*xs):
+            if len(xs) == 1 and isinstance(xs[0], (list, tuple)):
+                xs = tuple(xs[0])
+            return F(kind, [x._formula for x in xs]).stub
+
+        return build
+
+    def val(f, env):
+        if f.kind in ("a", "b"):
+            return env[f.kind]
+        vs = [val(x, env) for x in f.args]
+        return {"not": lambda: not vs[0], "and": lambda: all(vs), "or": lambda: any(vs), "implies": lambda: (not vs[0]) or vs[1], "iff": lambda: vs[0] == vs[1]}[f.kind]()
+
+    def is_nnf(f):
+        if f.kind in ("a", "b"):
+            return True
+        if f.kind == "not":
+            return f.args[0].kind in ("a", "b")
+        return f.kind in ("and", "or") and all(is_nnf(x) for x in f.args)
+
+    def show(f):
+        return f.kind if f.kind in ("a", "b") else f"{f.kind}({', '.join(show(x) for x in f.args)})"
+
+    atoms = [("a",), ("b",)]
+    d0 = [F(k) for (k,) in atoms]
+
+    def grow(prev):
+        out = [F("not", [x]) for x in prev]
+        for k in ("and", "or", "implies", "iff"):
+            out += [F(k, [x, y]) for x in prev for y in prev]
+        return out
+
+    d1 = d0 + grow(d0)
+    d2 = d1 + [F("not", [x]) for x in d1[2:]] + [F(k, [x, y]) for k in ("and", "or", "implies", "iff") for x in d1 for y in d1 if x.kind not in ("a", "b") or y.kind not in ("a", "b")]
+    d2 += [F(k, [x, y, z]) for k in ("and", "or") for x, y, z in itertools.product(d1[:8], repeat=3)][:: 7 if tier != "thorough" else 1]
+    if tier != "thorough":
+        d2 = d2[::3] + d1
+    interp = _OrderInterp(nn.node)
+    interp.check_asserts = True
+    params = [p for p in nn.params() if p not in ("self", "cls")]
+    if len(params) != 1:
+        return False
+    manager = _Stub("manager", And=mk("and"), Or=mk("or"), Not=mk("not"))
+    me = _Stub("self", manager=manager, environment=_Stub("env", expression_manager=manager))
+    wrong = None
+    n = 0
+    for f in d2:
+        try:
+            interp.run({"self": me, params[0]: f.stub})
+            got = None
+        except _Returned as r:
+            got = r.value
+        except _Yielded:
+            got = None
+        except _Raised as ex:
+            got = f"raises {ex}"
+        except _OrderInterp.Unsupported:
+            return False
+        except Exception:
+            return False
+        n += 1
+        if wrong is not None:
+            continue
+        g = getattr(got, "_formula", None)
+        if g is None:
+            wrong = (f, f"{got}", "no formula is answered")
+        elif not is_nnf(g):
+            wrong = (f, show(g), "the answer is not in negation normal form")
+        elif any(val(f, {"a": x, "b": y}) != val(g, {"a": x, "b": y}) for x in (False, True) for y in (False, True)):
+            wrong = (f, show(g), "the answer is not equivalent to the input")
+    detail = ""
+    if wrong is not None:
+        detail = f"for {show(wrong[0])} the answer is {wrong[1]}: {wrong[2]} (De Morgan / the expansion of an implication or equivalence is applied under the wrong polarity)"
+    rep.check(wrong is None, rule2, "the NNF of a formula is equivalent to it, negates only atoms and contains no implication or equivalence", nn.loc(), construct=f"{n} formulas of depth <= 2 interpreted", detail=detail, function=nn.qualname, strict=True)
+    rep.count("nnf_formulas_interpreted", n)
+    return True
+
+
+def _after_nnf(idx: Index, rep: Report, tier: str) -> None:
+    nn = idx.func("model.walkers.dnf.Nnf.get_nnf_expression")
     # ---------------------------------------------------------------- (3) T6
     rule3 = "C12.3 T6 operator-exhaustiveness"
-    preds = {c.func.attr for c in walk_no_nested(nn.node) if isinstance(c, ast.Call) and isinstance(c.func, ast.Attribute) and c.func.attr.startswith("is_")}
+    preds = {c.attr for c in ast.walk(nn.node) if isinstance(c, ast.Attribute) and c.attr.startswith("is_")}
     for p in ("is_not", "is_and", "is_or", "is_implies", "is_iff"):
         rep.check(p in preds, rule3, f"Nnf distinguishes {p}", nn.loc(), construct=p, detail="" if p in preds else f"{p[3:]} is treated as an atom: negation is not pushed through it", function=nn.qualname)
     db = WalkerDB(idx)
